@@ -98,7 +98,8 @@ APathModified(R, F) == /\ ~F.skipped /\ (R.feu \/ UnfTmpPrs(F) = 0) /\ ~F.notree
                        /\ \E v \in RecViols(F) : HasFixes(F, v)
 \* _stdin_fix (single file): flags sampled BEFORE _handle_unparsable discards the fixes (F23)
 AStdinFixExit(R) == LET F == AFile(R.files[1])
-                        templater_error == \E v \in F.V : v.kind = "TMP" /\ ~v.suppressed /\ ~v.warning
+                        \* `not fix_even_unparsable and ...` since 2c38d66 (before: the flag was ignored, stdin exited 1)
+                        templater_error == ~R.feu /\ \E v \in F.V : v.kind = "TMP" /\ ~v.suppressed /\ ~v.warning
                         unfixable_error == UnfixAtAdd(F) > 0
                     IN IF templater_error \/ unfixable_error THEN 1 ELSE AHandleUnparsable(R)
 AStdinModified(R) == LET F == AFile(R.files[1])
